@@ -256,7 +256,7 @@ func runRingCase(t *testing.T, run *vt.Run, c vt.CaseID, rng *rand.Rand, rc ring
 				for ri, l := range rings {
 					var rs ring.ReplicationSet
 					var err error
-					mode := (int(key) + ri + len(op.spec.Name)) % 5
+					mode := (int(key) + ri + len(op.spec.Name)) % 6
 					if mode == 4 && subs[ri] == nil {
 						mode = 0
 					}
@@ -271,6 +271,14 @@ func runRingCase(t *testing.T, run *vt.Run, c vt.CaseID, rng *rand.Rand, rc ring
 							rs, err = l.r.Get(key, op.real, bd, bh, bz)
 						case 2:
 							rs, err = l.r.Get(key, op.real, make([]ring.InstanceDesc, 0, 1), make([]string, 0, 1), nil)
+						case 5:
+							// the options entry point with the replication factor left at its default (no option, or an
+							// explicit zero): the configured replication factor applies to the walk and to the quorum
+							if key%2 == 0 {
+								rs, err = l.r.GetWithOptions(key, op.real)
+							} else {
+								rs, err = l.r.GetWithOptions(key, op.real, ring.WithReplicationFactor(0), ring.WithBuffers(ring.MakeBuffersForGet()))
+							}
 						default:
 							rs, err = l.r.GetWithOptions(key, op.real, ring.WithReplicationFactor(rc.RF), ring.WithBuffers(make([]ring.InstanceDesc, 0, 2), make([]string, 0, 2), nil))
 						}
